@@ -135,7 +135,7 @@ def store_part(ctx, batch, N):
     root = BUILD / "tmp" / "c09s"
     shutil.rmtree(root, ignore_errors=True)
     root.mkdir(parents=True)
-    kinds = ["none", "flip", "trunc", "ptext", "ppickle", "sigforged", "sigint", "sigpickle", "sigtext", "dropsig", "droppayload", "torn_over_good"]
+    kinds = ["none", "flip", "trunc", "ptext", "ppickle", "sigforged", "sigint", "sigpickle", "sigtext", "sigrawbit", "dropsig", "droppayload", "torn_over_good"]
     n = 0
     try:
         for rep in range(ctx.n(2, 12)):
@@ -174,6 +174,17 @@ def store_part(ctx, batch, N):
                 elif kind == "sigtext":
                     dc._cache.set(k + ":hmac", "\u00e9" * 64)
                     sig = "(Some (RTextOther cbytes ctag))"
+                elif kind == "sigrawbit":
+                    # ONE bit flipped where the bytes live (cache.db, not through the diskcache API): the high bit of a hex character
+                    # makes the TEXT cell invalid UTF-8, so the store cannot even read the record - an unreadable record is absent
+                    import sqlite3
+                    con = sqlite3.connect(str(d / "cache.db"))
+                    rowid, sv = con.execute("SELECT rowid, CAST(value AS BLOB) FROM Cache WHERE key = ?", (k + ":hmac",)).fetchone()
+                    pos = rng.randrange(len(sv))
+                    con.execute("UPDATE Cache SET value = CAST(? AS TEXT) WHERE rowid = ?", (sv[:pos] + bytes([sv[pos] ^ 0x80]) + sv[pos + 1:], rowid))
+                    con.commit()
+                    con.close()
+                    sig = "None"
                 elif kind == "dropsig":
                     dc._cache.delete(k + ":hmac")
                     sig = "None"
@@ -668,18 +679,28 @@ def factory_closures_part(ctx):
             def step(x):
                 return fn(x)
             return FunctionNode(step, name="step", output_name="y", cache=True)
-        for label, mk in (("lambda used as the node function", lambda f: FunctionNode(f, name="lam", output_name="y", cache=True).with_inputs(v="x")),
-                          ("closure capturing the lambda", make_step)):
-            runner = SyncRunner(cache=InMemoryCache())
-            order = list(range(3))
-            rng.shuffle(order)
-            for j in order:
-                got = runner.run(Graph([mk(fs[j])]), {"x": x}).values
-                n += 1
-                if got != {"y": wants[j]}:
-                    ctx.violation("oracle", f"{label}, one of three lambdas sharing a source line, x={x}: cached run returned {got}, the function computes "
-                                  f"{wants[j]} (an entry of another function on that line was served)", case={"x": x, "which": j, "shape": label})
-                    break
+        # ... and functions that differ ONLY in the names they refer to (same bytecode, same constants): on one source line, and
+        # defined by exec (no source: the bytecode fallback)
+        gs = [lambda v: min(v, 3), lambda v: max(v, 3), lambda v: pow(v, 3)]  # noqa: E731
+        gwants = [min(x, 3), max(x, 3), pow(x, 3)]
+        ns_ = {}
+        exec("import math\ndef e0(v):\n    return math.floor(v / 2)\ndef e1(v):\n    return math.ceil(v / 2)\ndef e2(v):\n    return math.trunc(v / 2)\n", ns_)  # noqa: S102
+        import math as _m
+        es, ewants = [ns_["e0"], ns_["e1"], ns_["e2"]], [_m.floor(x / 2), _m.ceil(x / 2), _m.trunc(x / 2)]
+        for fs_, wants_, what in ((fs, wants, "three lambdas sharing a source line"), (gs, gwants, "three same-line lambdas that differ only in the global they call"),
+                                  (es, ewants, "three exec-defined functions that differ only in the attribute they call")):
+            for label, mk in (("function used as the node function", lambda f: FunctionNode(f, name="lam", output_name="y", cache=True).with_inputs(v="x")),
+                              ("closure capturing the function", make_step)):
+                runner = SyncRunner(cache=InMemoryCache())
+                order = list(range(3))
+                rng.shuffle(order)
+                for j in order:
+                    got = runner.run(Graph([mk(fs_[j])]), {"x": x}).values
+                    n += 1
+                    if got != {"y": wants_[j]}:
+                        ctx.violation("oracle", f"{label}, one of {what}, x={x}: cached run returned {got}, the function computes "
+                                      f"{wants_[j]} (an entry of another of these functions was served)", case={"x": x, "which": j, "shape": label, "set": what})
+                        break
         # closures capturing PLAIN OBJECTS (default repr = an address) that are created and dropped one after the other: a later
         # object may sit at the address of an earlier one, which says nothing about what it is
         class Model:
